@@ -40,7 +40,8 @@ META = {
               "Tied to the code by replaying thousands of real two-module simulations (probe, is_busy, finish time, Debug queue sizes, arrival times/order) through the same definitions."),
         design_ref="DESIGN.md §5 C07",
         note=("Trusted: as C01; f64 rounding of calculate_busy/calculate_duration is an input (tx read from the code, checked +-1ns; jitter only range-checked); usize/SimTime overflow out of scope. "
-              "Partial: dispatch order of equal-timestamp deliveries holds only if latency > 0 or no transmission time rounds to 0 (open finding F14, witness theorem); model mirrors the code after the F5 fix."),
+              "The kernel tie rule for the channel's own events is part of the model (kmin); zero_jitter_dispatch_order is proved at full strength. Model mirrors the code after the F5 and F14 fixes "
+              "(unbusy drains zero-time messages; exit event scheduled before the unbusy notification)."),
         technique=_T),
     "C16": dict(
         text=("Lean 4 theorems: the pointer-level model of des::net::message::{Body,Message} (type-erased box pointer into an explicit ghost heap, "
@@ -112,7 +113,7 @@ META = {
               "replaying thousands of generated simulations built with the real builder API."),
         design_ref="DESIGN.md §5 C08",
         note=("Trusted: Lean kernel; the three standard axioms; the hand transcription Rust->Lean; harness/driver/orchestrator. Channels are represented by the delay of an idle "
-              "channel (C07 owns busy/queue/drop); the inactive-owner drop is proved on the model but not exercised by the harness; sender_module_id is observed, not modelled."),
+              "channel (C07 owns busy/queue/drop); activity of owners is time-indexed in the model and exercised by shut-down modules in the harness; sender_module_id is modelled (stamped at send, never rewritten)."),
         technique=_T),
     "C19": dict(
         text=("Lean 4 theorems about the model of topology.rs over the C08 gate model: from_modules yields one edge per endpoint gate, in order, labelled with the two end gates "
@@ -121,8 +122,9 @@ META = {
               "the pre-repair LIFO work-lists wrong (spanned edges to wrong nodes, dijkstra not min-hop). Every run compares global/spanned/filtered views, dijkstra, connected, "
               "bidirectional, edges_for of generated module graphs on the real code with the model and the abstract module graph."),
         design_ref="DESIGN.md §5 C19, §6 F8",
-        note=("Partial: dijkstra minimality, filter_nodes and connected are checked against the abstract graph on every run (Graph.dist / induced / connected) but not yet proved in Lean. "
-              "Vector indexing is modelled with getD under the well-formedness predicate WF, which the constructors are proved to establish. Model mirrors /repo after the F8 fix."),
+        note=("All clauses have theorems: from_modules, spanned (termination, exact indices, node set = reachable set), bidirectional, dijkstra_first_edge_of_min_hop_path (BFS level invariant), "
+              "filter_keeps_selected_and_induced_edges (the real compaction loop), connected_iff_strongly_connected. Vector indexing is modelled with getD under the well-formedness predicate WF, "
+              "which the constructors are proved to establish. Model mirrors /repo after the F8 fix."),
         technique=_T),
     "C02": dict(
         text=("Lean 4 theorems about the model Rt of des::runtime::Runtime (dispatch_event with the limit tested on next_time before fetching, dispatch_all, add_event with the start-time check, "
@@ -181,5 +183,33 @@ META = {
         note=("Trusted/partial: tokio waker plumbing (a woken task is re-polled in the same event, C06); event-set time order (C01/C03) enters as the hypothesis "
               "EvOk/Consistent; Weak<TimerSlot> handle = slot deadline; equal-time events of different modules ordered by module index in the model "
               "(independent modules); model fuel not proved sufficient; never-lost clause for deadlines < SimTime::MAX; select! modelled biased; overflow out of scope."),
+        technique=_T),
+    "C20": dict(
+        text=("Lean 4 theorems about a typed ownership graph of a stopped des simulation (Runtime/Sim, Profiler, Globals, ModuleTree, ctx/processor/state/PE, async ext, tokio rt, task cell/state, mpsc, driver, TimerQueue/Slot, gates with connection slots, channels, probes, buffer entries, messages, bodies, queued/event connections, event entries in FES / Profiler.remaining / BUF_CTX) "
+              "with reference-count drop semantics and the destructors ModuleContext::drop=>dissolve_paths and TimerSlotEntryHandle::drop: no node is freed twice (any graph), dissolve_paths terminates on any wiring incl. rings with fuel #conn+1, dropping never errs within #roots+#edges steps, "
+              "the strong edges not cut by dissolve_paths are ranked for every description of the repaired code, hence every module state, PE, task state, body and probe is freed exactly once. Tied to the code by generated real simulations x stopping points with destructor counters."),
+        design_ref="DESIGN.md §5 C20",
+        note=("Partial: the tie observes counters/queue lengths/event counts only, not the reference graph; tokio drops task futures with the runtime (assumption); dissolve releases deferred. all_user_objects_freed_once has the decidable hypothesis wired d (checked by the driver per case, not proved for all d). "
+              "Witnesses: backlog_cycle_witness (pre-repair code leaks, F12, fixed in /repo), timer_bookkeeping_residue_witness (TimerQueue<->TimerSlot stays allocated, not user-visible)."),
+        technique=_T),
+    "C09": dict(
+        text=("Lean 4 theorems about the kernel model Net (scripted modules, future event set, buffered emissions flushed by buf_process, shutdown request consumed at the end of the event: deactivate, drop runtime, reset, schedule ModuleRestartEvent; "
+              "inactive guards in handle_message/async_wakeup, inactive-owner drop in handle_with_sink, module_restart replaying the stages): for every state satisfying the between-events invariant and every script, "
+              "an inactive module shows no observation for any number of dispatched events until its restart is dispatched (C09.inert_while_down), its tasks/timers are gone at the end of the requesting event, messages meeting a gate of an inactive owner "
+              "or addressed to it are dropped without trace, exactly one reset per requesting event (last line), the restart event is scheduled at exactly the requested time and runs stages 0..n-1 once each in order with that time stamp, "
+              "after which messages are handled again, and while the module is down the rest of the system evolves identically whatever program it carries (C09.others_unaffected, equality of whole states). "
+              "Tied to the code by comparing whole observation traces of tens of thousands of real des simulations with Net.run and by an independent acceptance checker."),
+        design_ref="DESIGN.md §5.0, §5 C09",
+        note=("Trusted: Lean kernel; propext/Classical.choice/Quot.sound; hand transcription Rust->Lean; tokio runtime drop = all tasks cancelled once; harness, driver, orchestrator. Partial: dispatch-at-scheduled-time taken from C01/C02; "
+              "non-interference is relative to the inactive reference run and needs 'restart not yet dispatched' as hypothesis; at_sim_end still runs on shut-down modules (outside the clauses). Mirrors /repo after fixes F-C09a and F3."),
+        technique=_T),
+    "C13": dict(
+        text=("Lean 4 theorems about the same kernel model with panic actions (callback aborted, Harness::catch: active := false, PanicError unless on_panic_catch; task panics caught by tokio and reported through try_join at sim end): "
+              "Sim::error after the event loop equals, as a list, the uncaught callback-panic lines of the trace (C13.errors_eq_panicked_paths; empty if all caught), at_sim_end adds the callback's uncaught panic or else one JoinError per panicked joined task, "
+              "a module whose callback panicked is inactive and unobserved until a restart is dispatched, the run of everybody else is identical to the run where the panicked module carries the silent program (C13.healthy_trace_eq_silenced_trace), "
+              "and between events MOD_CTX/BUF_CTX/shutdown requests are released (C13.globals_released). Tied to the code by whole-trace comparison of panicking multi-module simulations run twice per process, error lists compared in order."),
+        design_ref="DESIGN.md §5.0, §5 C13",
+        note=("Trusted: as C09 + unwinding through block_on leaves globals usable (validated by the second in-process run). Deviations witnessed by theorems, not repaired: joined-task panics ignore on_panic_catch and do not deactivate (F-C13b); "
+              "at_sim_end and overdue tasks of a panicked module run at simulation end (F-C13c). Non-interference relative to the inactive reference run; error equality proved up to, and per module during, at_sim_end."),
         technique=_T),
 }
